@@ -46,8 +46,11 @@ class _Allocation(dict):
             generator = dict().items()
 
         # Use the generator.
+        # Values are coerced to Python floats: with numpy scalars of a narrower
+        # type (e.g. a float32 action) every quantity and cash amount derived
+        # from them would be computed in that type.
         data = {
-            contract.static_hashing(): value
+            contract.static_hashing(): float(value)
             for contract, value in generator
             if not isinstance(contract, Cash)
             if value != 0
